@@ -96,12 +96,25 @@ class Project:
     def script(self, name):
         d = self.cmds[name]
         parts = []
-        reads = "".join("cat %s 2>/dev/null; " % i for i in d["inputs"] if not is_virtual(i))
-        for j, o in enumerate(d["outputs"]):
-            if not is_virtual(o):
-                parts.append("(printf '%%s' '%s%d('; %sprintf ')') > %s" % (d["tag"], j, reads, o))
+        # a directory written by a directory-producing command is read entry by entry (sorted glob)
+        reads = "".join(("cat %s/* 2>/dev/null; " % i.rstrip("/")) if self.produced_by_tool(i) == "dirshell" else
+                        ("cat %s 2>/dev/null; " % i) for i in d["inputs"] if not is_virtual(i))
+        if d["tool"] == "dirshell":
+            # the declared output is a directory which the command recreates from scratch and populates
+            D = d["outputs"][0].rstrip("/")
+            parts.append("rm -rf %s; mkdir -p %s" % (D, D))
+            for j in range(d.get("entries", 2)):
+                parts.append("(printf '%%s' '%s%d('; %sprintf ')') > %s/e%d" % (d["tag"], j, reads, D, j))
+        else:
+            for j, o in enumerate(d["outputs"]):
+                if not is_virtual(o):
+                    parts.append("(printf '%%s' '%s%d('; %sprintf ')') > %s" % (d["tag"], j, reads, o))
         parts.append("echo %s >> runlog" % name)
         return "; ".join(parts)
+
+    def in_model(self, cmds):
+        """Directory outputs populated by a shell command are outside the Coq model (flat world, no tree signatures)."""
+        return all(self.cmds[c]["tool"] != "dirshell" for c in cmds)
 
     def yaml(self):
         L = ["client:", "  name: basic", "", "targets:"]
@@ -110,13 +123,13 @@ class Project:
         L += ["", "commands:"]
         for name, d in self.cmds.items():
             L.append("  %s:" % yq(name))
-            L.append("    tool: %s" % d["tool"])
+            L.append("    tool: %s" % ("shell" if d["tool"] == "dirshell" else d["tool"]))
             if d["inputs"]:
                 L.append("    inputs: [%s]" % ", ".join(yq(n) for n in d["inputs"]))
             L.append("    outputs: [%s]" % ", ".join(yq(n) for n in d["outputs"]))
             if d["tool"] != "phony":
                 L.append("    description: %s" % yq("RUN:" + name))
-            if d["tool"] == "shell":
+            if d["tool"] in ("shell", "dirshell"):
                 L.append("    args: %s" % yq(self.script(name)))
             if d["tool"] == "symlink":
                 L.append("    contents: %s" % yq(d["contents"]))
@@ -124,7 +137,7 @@ class Project:
 
     # ---- encoding for the model
     def model_desc(self):
-        tl = {"shell": "s", "phony": "p", "mkdir": "m", "symlink": "l"}
+        tl = {"shell": "s", "phony": "p", "mkdir": "m", "symlink": "l", "dirshell": "s"}
         def fl(l):
             return "." if not l else ",".join(hx(x.encode()) for x in l)
         cmds = ";".join(":".join([tl[d["tool"]], hx(n.encode()), fl(d["inputs"]), fl(d["outputs"]),
@@ -143,7 +156,8 @@ class Project:
 def gen_project(rng):
     P = Project()
     files = []                    # regular-file nodes usable as shell inputs (sources + shell outputs)
-    dirs, virtuals = [], []
+    dirs, virtuals, gdirs = [], [], []
+    free_virtuals = 0
     for i in range(rng.randint(2, 4)):
         files.append("s%d" % i)
     ncmd = rng.randint(3, 8)
@@ -151,9 +165,12 @@ def gen_project(rng):
     for i in range(ncmd):
         r = rng.random()
         k = P.fresh()
-        if r < 0.68 or i == 0:
-            pool = files + dirs + virtuals
+        if r < 0.58 or i == 0:
+            pool = files + dirs + virtuals + gdirs
             ins = rng.sample(pool, min(len(pool), rng.randint(1, 3)))
+            if rng.random() < 0.25 and free_virtuals < 2:
+                ins.append("<u%d>" % k)       # a virtual input that no command produces (yet)
+                free_virtuals += 1
             outs = []
             for j in range(rng.choice([1, 1, 2, 3])):
                 where = rng.random()
@@ -175,6 +192,15 @@ def gen_project(rng):
                 if not is_virtual(o):
                     files.append(o)
             sinks += outs
+        elif r < 0.70:
+            # a shell command whose declared output is a directory it populates: as a directory node "g/" (consumers
+            # take its tree signature) or as a plain node that happens to be a directory
+            pool = files + virtuals
+            ins = rng.sample(pool, min(len(pool), rng.randint(1, 2)))
+            D = "g%d/" % k if rng.random() < 0.6 else "g%d" % k
+            P.cmds["C%d" % k] = dict(tool="dirshell", inputs=ins, outputs=[D], tag="T%d" % k, contents="", entries=rng.randint(2, 3))
+            gdirs.append(D)
+            sinks.append(D)
         elif r < 0.80:
             d = "d%d" % k if rng.random() < 0.7 else "dd%d/in" % k
             P.cmds["C%d" % k] = dict(tool="mkdir", inputs=[], outputs=[d], tag="", contents="")
@@ -225,12 +251,15 @@ class History:
         self.dirty_sources = set()    # sources written by the harness since the last successful build that reached them
         self.dirty_outputs = set()    # outputs tampered with since the last successful build that reached their producer
         self.nbuilds = 0
+        self.soft = {}            # directory output -> counter of modifications of entries inside it
+        self.entry_modified = set()   # directory outputs with an entry overwritten since their producer last ran
+        self.sig_of_tokens, self.tokens_of_sig = {}, {}
         for n in self.P.source_nodes():
             self.write_source(n, "src-%s-%d;" % (n, self.P.fresh()))
 
     # ---- file system helpers
     def path(self, n):
-        return os.path.join(self.S, n)
+        return os.path.join(self.S, n.rstrip("/"))
 
     def logical_ns(self):
         # explicit, strictly increasing, far from the wall clock: an observable edit
@@ -259,8 +288,8 @@ class History:
         elif os.path.isdir(p):
             shutil.rmtree(p)
 
-    def observe(self, root, n):
-        p = os.path.join(root, n)
+    def observe(self, root, n, listing=False):
+        p = os.path.join(root, n.rstrip("/"))
         try:
             st = os.lstat(p)
         except OSError:
@@ -268,13 +297,21 @@ class History:
         if stat.S_ISLNK(st.st_mode):
             return ("l", os.readlink(p).encode())
         if stat.S_ISDIR(st.st_mode):
-            return ("d", b"")
+            if not listing:
+                return ("d", b"")
+            # a directory that one command owns: every entry with its content belongs to the output
+            items = []
+            for dp, dn, fn in os.walk(p):
+                for f in fn:
+                    q = os.path.join(dp, f)
+                    items.append(os.path.relpath(q, p).encode() + b"=" + (open(q, "rb").read() if os.path.isfile(q) else b"?"))
+            return ("d", b";".join(sorted(items)))
         return ("f", open(p, "rb").read())
 
     def bump_tamper(self, n):
         # a tampering of n also hits every node stored beneath it (deleting a directory)
         for m in self.P.nodes():
-            if m == n or m.startswith(n + "/"):
+            if m.rstrip("/") == n.rstrip("/") or m.startswith(n.rstrip("/") + "/"):
                 self.tamper[m] = self.tamper.get(m, 0) + 1
                 self.dirty_outputs.add(m)
 
@@ -292,7 +329,7 @@ class History:
                 ins.append(("virt", n))
             else:
                 ins.append(("src", n, self.P.version.get(n)))
-        outs = tuple((o, self.tamper.get(o, 0)) for o in d["outputs"] if not is_virtual(o))
+        outs = tuple((o, self.tamper.get(o, 0), self.soft.get(o, 0)) for o in d["outputs"] if not is_virtual(o))
         memo[c] = hash((c, d["tool"], tuple(d["inputs"]), tuple(d["outputs"]), d["tag"], d["contents"], tuple(ins), outs))
         return memo[c]
 
@@ -318,7 +355,9 @@ class History:
         for attempt in range(20):
             kind = rng.choice(["edit_source", "edit_source_same_mtime", "delete_output", "delete_last_output", "garbage_output",
                                "garbage_same_mtime", "nothing", "change_args", "add_command", "remove_command", "rewire_input",
-                               "source_to_produced", "source_to_produced", "produced_to_source", "add_output", "change_link"])
+                               "source_to_produced", "source_to_produced", "produced_to_source", "add_output", "change_link",
+                               "dir_delete_entry", "dir_add_entry", "dir_modify_entry", "virtual_gains_producer", "virtual_gains_producer",
+                               "virtual_loses_producer"])
             r = getattr(self, "m_" + kind)()
             if r is not None:
                 self.pending.append(kind)
@@ -366,8 +405,8 @@ class History:
         return out
 
     def m_delete_output(self):
-        c = self.existing_outputs(("shell", "mkdir", "symlink"))
-        special = self.existing_outputs(("mkdir", "symlink"))
+        c = self.existing_outputs(("shell", "mkdir", "symlink", "dirshell"))
+        special = self.existing_outputs(("mkdir", "symlink", "dirshell"))
         if not c:
             return None
         o = self.rng.choice(special) if special and self.rng.random() < 0.3 else self.rng.choice(c)
@@ -418,12 +457,58 @@ class History:
         return o
 
     def m_change_args(self):
-        c = [n for n, d in self.P.cmds.items() if d["tool"] == "shell"]
+        c = [n for n, d in self.P.cmds.items() if d["tool"] in ("shell", "dirshell")]
         if not c:
             return None
         n = self.rng.choice(c)
         self.P.cmds[n]["tag"] = "T%dv%d" % (self.P.fresh(), self.rng.randint(0, 9))
         return n
+
+    # ---- tampering inside a directory that a command produced
+    def produced_dirs(self):
+        return [d["outputs"][0] for d in self.P.cmds.values() if d["tool"] == "dirshell" and os.path.isdir(self.path(d["outputs"][0]))]
+
+    def m_dir_delete_entry(self):
+        c = [D for D in self.produced_dirs() if os.listdir(self.path(D))]
+        if not c:
+            return None
+        D = self.rng.choice(c)
+        e = self.rng.choice(sorted(os.listdir(self.path(D))))
+        os.unlink(os.path.join(self.path(D), e))
+        ns = self.logical_ns()
+        os.utime(self.path(D), ns=(ns, ns))
+        self.bump_tamper(D)
+        return "%s/%s" % (D.rstrip("/"), e)
+
+    def m_dir_add_entry(self):
+        c = self.produced_dirs()
+        if not c:
+            return None
+        D = self.rng.choice(c)
+        e = "zz%d" % self.P.fresh()
+        q = os.path.join(self.path(D), e)
+        open(q, "w").write("EXTRA%d" % self.P.fresh())
+        ns = self.logical_ns()
+        os.utime(q, ns=(ns, ns))
+        os.utime(self.path(D), ns=(ns, ns))
+        self.bump_tamper(D)
+        return "%s/%s" % (D.rstrip("/"), e)
+
+    def m_dir_modify_entry(self):
+        # an existing entry is overwritten (explicit fresh mtime on the entry); the directory itself is not touched
+        c = [D for D in self.produced_dirs() if os.listdir(self.path(D))]
+        if not c or self.rng.random() < 0.5:
+            return None
+        D = self.rng.choice(c)
+        e = self.rng.choice(sorted(os.listdir(self.path(D))))
+        q = os.path.join(self.path(D), e)
+        with open(q, "r+b") as f:
+            f.seek(0); f.write(("GARBAGE%d" % self.P.fresh()).encode()); f.truncate()
+        ns = self.logical_ns()
+        os.utime(q, ns=(ns, ns))
+        self.soft[D] = self.soft.get(D, 0) + 1
+        self.entry_modified.add(D)
+        return "%s/%s" % (D.rstrip("/"), e)
 
     def m_change_link(self):
         c = [n for n, d in self.P.cmds.items() if d["tool"] == "symlink"]
@@ -439,7 +524,7 @@ class History:
             if n == "<all>":
                 continue
             t = self.P.produced_by_tool(n)
-            if t in (None, "shell", "mkdir", "phony"):
+            if t in (None, "shell", "mkdir", "phony", "dirshell"):
                 if t is None and not is_virtual(n) and not os.path.isfile(self.path(n)):
                     continue
                 out.append(n)
@@ -482,27 +567,68 @@ class History:
             return "%s+%s" % (n, o)
         return self.try_edit(f)
 
+    def drop_command(self, Q, n, keep_virtual):
+        d = Q.cmds.pop(n)
+        for o in d["outputs"]:
+            # a file left on disk by the removed command becomes a source; a virtual output may stay as a virtual
+            # input without producer; other references are dropped
+            if is_virtual(o):
+                keep = keep_virtual
+            else:
+                keep = d["tool"] == "shell" and os.path.isfile(self.path(o))
+            if not keep:
+                for e in Q.cmds.values():
+                    e["inputs"] = [i for i in e["inputs"] if i != o]
+                for t in Q.targets:
+                    Q.targets[t] = [i for i in Q.targets[t] if i != o]
+            else:
+                Q.version.pop(o, None)
+        for t in Q.targets:
+            if not Q.targets[t]:
+                Q.targets[t] = ["<all>"]
+
     def m_remove_command(self):
         def f(Q):
             c = [n for n in Q.cmds if n != "C.all"]
             if len(c) < 2:
                 return None
             n = self.rng.choice(c)
-            d = Q.cmds.pop(n)
-            for o in d["outputs"]:
-                # a file left on disk by the removed command becomes a source; other references are dropped
-                keep = (not is_virtual(o)) and d["tool"] == "shell" and os.path.isfile(self.path(o))
-                if not keep:
-                    for e in Q.cmds.values():
-                        e["inputs"] = [i for i in e["inputs"] if i != o]
-                    for t in Q.targets:
-                        Q.targets[t] = [i for i in Q.targets[t] if i != o]
-                else:
-                    Q.version.pop(o, None)
-            for t in Q.targets:
-                if not Q.targets[t]:
-                    Q.targets[t] = ["<all>"]
-            # a symlink whose target file is gone would dangle: its contents are only a string, nothing to do
+            self.drop_command(Q, n, self.rng.random() < 0.5)
+            return n
+        return self.try_edit(f)
+
+    def m_virtual_gains_producer(self):
+        # a virtual node that is an input of an existing command and has no producer gets one: a new command with the
+        # virtual node and a file among its outputs; the consumer is unchanged and nothing else refers to the new command
+        def f(Q):
+            c = [v for v in Q.nodes() if is_virtual(v) and v != "<all>" and not Q.producers(v) and
+                 any(v in e["inputs"] for e in Q.cmds.values())]
+            pool = [n for n in self.shell_input_pool() if not is_virtual(n)]
+            if not c or not pool:
+                return None
+            v = self.rng.choice(c)
+            k = Q.fresh()
+            outs = ["p%d_0" % k]
+            outs.insert(self.rng.randint(0, 1), v)
+            cmd = dict(tool="shell", inputs=self.rng.sample(pool, min(len(pool), self.rng.randint(1, 2))), outputs=outs,
+                       tag="P%d" % k, contents="")
+            if self.rng.random() < 0.5:
+                new = {"P%d" % k: cmd}
+                new.update(Q.cmds)
+                Q.cmds = new
+            else:
+                Q.cmds["P%d" % k] = cmd
+            return "P%d->%s" % (k, v)
+        return self.try_edit(f)
+
+    def m_virtual_loses_producer(self):
+        def f(Q):
+            c = [n for n, d in Q.cmds.items() if d["tool"] == "shell" and
+                 any(is_virtual(o) and any(o in e["inputs"] for m, e in Q.cmds.items() if m != "C.all") for o in d["outputs"])]
+            if not c:
+                return None
+            n = self.rng.choice(c)
+            self.drop_command(Q, n, True)
             return n
         return self.try_edit(f)
 
@@ -521,19 +647,7 @@ class History:
             if not c:
                 return None
             n = self.rng.choice(c)
-            d = Q.cmds.pop(n)
-            for o in d["outputs"]:
-                keep = (not is_virtual(o)) and os.path.isfile(self.path(o))
-                if not keep:
-                    for e in Q.cmds.values():
-                        e["inputs"] = [i for i in e["inputs"] if i != o]
-                    for t in Q.targets:
-                        Q.targets[t] = [i for i in Q.targets[t] if i != o]
-                else:
-                    Q.version.pop(o, None)
-            for t in Q.targets:
-                if not Q.targets[t]:
-                    Q.targets[t] = ["<all>"]
+            self.drop_command(Q, n, False)
             return n
         return self.try_edit(f)
 
@@ -558,7 +672,7 @@ class History:
 
     def m_rewire_input(self):
         def f(Q):
-            c = [n for n, d in Q.cmds.items() if d["tool"] in ("shell", "phony") and d["inputs"]]
+            c = [n for n, d in Q.cmds.items() if d["tool"] in ("shell", "phony", "dirshell") and d["inputs"]]
             pool = self.shell_input_pool()
             if not c or not pool:
                 return None
@@ -583,10 +697,32 @@ class History:
             return {}
         con = sqlite3.connect("file:%s?mode=ro" % db, uri=True)
         try:
-            rows = con.execute("select k.key, r.value from rule_results r join key_names k on k.id = r.key_id").fetchall()
+            rows = con.execute("select k.key, r.value, r.signature from rule_results r join key_names k on k.id = r.key_id").fetchall()
         finally:
             con.close()
-        return {(k if isinstance(k, str) else bytes(k).decode("latin1")): bytes(v) for k, v in rows}
+        self.db_sigs = {(k if isinstance(k, str) else bytes(k).decode("latin1")): s for k, v, s in rows}
+        return {(k if isinstance(k, str) else bytes(k).decode("latin1")): bytes(v) for k, v, s in rows}
+
+    def signature_tie(self, keys):
+        """The token sequence the model feeds to a rule's signature and the signature the engine stored must be in
+        one-to-one correspondence within a history (ideal hash): returns (key, why) on a mismatch."""
+        cmds, tg = self.P.model_desc()
+        ks = [k for k in keys if k in self.db_sigs]
+        if not ks:
+            return None
+        ans = self.model.ask("sigtok %s %s %s" % (cmds, tg, ",".join("%s%s" % (k[0], hx(k[1:].encode())) for k in ks))).split(",")
+        if len(ans) != len(ks):
+            raise RuntimeError("model answer for %d keys: %r" % (len(ks), ans[:3]))
+        for k, tok in zip(ks, ans):
+            if k[0] == "C" and self.P.cmds.get(k[1:], {}).get("tool") == "shell":
+                tok += "|" + self.P.script(k[1:])        # the model's args are the tag; the real ones the script made from it
+            sig = self.db_sigs[k]
+            if self.sig_of_tokens.setdefault(tok, sig) != sig:
+                return (k, "the same signature tokens %s were stored with signatures %s and %s" % (tok[:80], self.sig_of_tokens[tok], sig))
+            if self.tokens_of_sig.setdefault(sig, tok) != tok:
+                return (k, "signature %s was stored for different token sequences: %s and %s" % (sig, self.tokens_of_sig[sig][:120], tok[:120]))
+            self.chk.cov["signatures_compared"] = self.chk.cov.get("signatures_compared", 0) + 1
+        return None
 
     def stats(self):
         items = []
@@ -663,7 +799,8 @@ class History:
         # the model's verdict on what the database holds, in the world as it is before the build
         reach_nodes = list(dict.fromkeys([n for c in reach for n in P.cmds[c]["inputs"] + P.cmds[c]["outputs"]] + list(tnodes)))
         keys = ["C" + c for c in reach] + ["N" + n for n in reach_nodes]
-        pre = self.verdicts(self.read_db(), keys)
+        in_model = P.in_model(reach)
+        pre = self.verdicts(self.read_db(), keys) if in_model else {}
         unchanged_def = lambda c: c in self.uptodate and self.uptodate[c][1]["defn"] == owns[c]["defn"]
         rc, out, err, ran = self.run_llbuild(self.S, tname, serial, os.path.join(self.S, "build.db"))
         self.nbuilds += 1
@@ -694,16 +831,17 @@ class History:
                 os.symlink(content.decode(), p)
         crc, cout, cerr, cran = self.run_llbuild(self.C, tname, True, None)
         outputs = [o for c in reach for o in P.cmds[c]["outputs"] if not is_virtual(o)]
-        got = {o: self.observe(self.S, o) for o in outputs}
+        owned_dir = lambda o: P.produced_by_tool(o) == "dirshell"
+        got = {o: self.observe(self.S, o, owned_dir(o)) for o in outputs}
         rp = dict(history_seed=self.seed, sandbox=self.S, operations=self.log, description=P.yaml(),
                   sources={n: [k, c.decode("latin1")] for n, (k, c) in sources}, target=tname, serial=serial)
         if crc != 0:
             raise HistoryFailure("c08-clean-build-failed", "the incremental build succeeded but a clean build of the same description and "
                                  "sources fails (rc=%d): %s" % (crc, (cerr or cout)[-300:]), False)
-        want = {o: self.observe(self.C, o) for o in outputs}
+        want = {o: self.observe(self.C, o, owned_dir(o)) for o in outputs}
         diff = [o for o in outputs if got[o] != want[o]]
         # ---- the model's clean build
-        ans = self.model.ask(P.model_request([(n, c) for n, (k, c) in sources if k == "f"], tname))
+        ans = self.model.ask(P.model_request([(n, c) for n, (k, c) in sources if k == "f"], tname)) if in_model else "OUTSIDE"
         mod = None
         if ans.startswith("OK "):
             f = ans.split(" ")
@@ -720,6 +858,13 @@ class History:
             rp.update(output=o, incremental=[got[o][0], got[o][1].decode("latin1")], clean=[want[o][0], want[o][1].decode("latin1")],
                       model=(None if mod is None or o not in mod else [mod[o][0], mod[o][1].decode("latin1")]), ran=ran, differing=diff)
             self.rp = rp
+            stale_dirs = [D for D in self.entry_modified if P.producers(D) and P.producers(D)[0] in reach and P.producers(D)[0] not in ran]
+            if stale_dirs:
+                rp.update(directory=stale_dirs[0])
+                raise HistoryFailure("c08-dir-entry-modified", "an entry inside the directory %r, the declared output of command %s, was overwritten "
+                                     "(fresh mtime on the entry; the directory's own stat is unchanged): the producer was judged up to date and did not run again, "
+                                     "so after the successful build output %r holds %r but a clean build gives %r" %
+                                     (stale_dirs[0], P.producers(stale_dirs[0])[0], o, got[o][1][:60], want[o][1][:60]), True)
             raise HistoryFailure("c08-stale-output", "after a successful incremental build, output %r reachable from target %r holds %r but a "
                                  "clean build of the same description and sources gives %r" % (o, tname, got[o][1][:60], want[o][1][:60]), True)
         # ---- run-log expectations (independent of the model)
@@ -740,9 +885,12 @@ class History:
             self.rp = rp
             raise HistoryFailure("c08-null-build-runs", "a build right after a successful build of the same target ran %s" % ran, False)
         # ---- correspondence of the model's validity predicates (real stored values, real stat)
-        post = self.verdicts(self.read_db(), keys)
+        stored_after = self.read_db()
+        post = self.verdicts(stored_after, keys) if in_model else {}
         vbad = None
-        if not self.uncertain:
+        if not in_model:
+            chk.cov["builds_outside_model"] = chk.cov.get("builds_outside_model", 0) + 1
+        if in_model and not self.uncertain:
             for c in reach:
                 v = pre.get("C" + c)
                 if v is None or not unchanged_def(c):
@@ -767,14 +915,20 @@ class History:
             rp.update(key=vbad[0], model_verdict=vbad[1], ran=ran, verdicts_before=pre, verdicts_after=post)
             self.rp = rp
             raise HistoryFailure("c08-validity-correspondence", vbad[2] + " (outputs nevertheless equal the clean build's)", False)
+        sbad = self.signature_tie(keys) if in_model else None
+        if sbad:
+            rp.update(key=sbad[0], ran=ran)
+            self.rp = rp
+            raise HistoryFailure("c08-signature-correspondence", "rule signatures of the model (BSys.RulesBS.rule_sig) and of llbuild are not in "
+                                 "one-to-one correspondence at key %s: %s" % sbad, False)
         # ---- correspondence of the model
-        if mod is None:
+        if in_model and mod is None:
             rp.update(model_answer=ans)
             self.rp = rp
             raise HistoryFailure("c08-model-stuck", "the model's clean build does not complete (%s) on a description the implementation builds" % ans[:40], False)
-        mdiff = [o for o in outputs if mod.get(o) != want[o]]
+        mdiff = [o for o in outputs if mod.get(o) != want[o]] if in_model else []
         logging_cmds = lambda l: sorted(c for c in l if P.cmds[c]["tool"] in ("shell", "mkdir", "symlink"))
-        if mdiff or logging_cmds(mod_ran) != sorted(cran) or sorted(mod) != sorted(set(outputs)):
+        if in_model and (mdiff or logging_cmds(mod_ran) != sorted(cran) or sorted(mod) != sorted(set(outputs))):
             o = mdiff[0] if mdiff else None
             rp.update(output=o, clean=None if o is None else [want[o][0], want[o][1].decode("latin1")],
                       model=None if o is None or o not in mod else [mod[o][0], mod[o][1].decode("latin1")],
@@ -794,6 +948,8 @@ class History:
         for c in reach:
             self.uptodate[c] = (fps[c], owns[c])
             self.dirty_outputs -= set(P.cmds[c]["outputs"])
+            if c in ran:
+                self.entry_modified -= set(P.cmds[c]["outputs"])
         self.dirty_sources -= set(reach_nodes)
         self.last_ok_target = tname
 
@@ -837,7 +993,8 @@ def run_histories(chk, seeds):
                 chk.violation(e.key, e.what, rp, found_input=e.found,
                               broken="c08 oracle: incremental build vs clean build through llbuild" if e.found else
                                      ("correspondence: BSys.RulesBS.clean" if "model" in e.key else
-                                      "correspondence: BSys.RulesBS.rule_valid" if "validity" in e.key else "c08 run-set expectation"))
+                                      "correspondence: BSys.RulesBS.rule_valid" if "validity" in e.key else
+                                      "correspondence: BSys.RulesBS.rule_sig" if "signature" in e.key else "c08 run-set expectation"))
             for e in h.log:
                 kinds[e["op"]] = kinds.get(e["op"], 0) + 1
             if idx < 2:
